@@ -32,9 +32,7 @@ type pendingAccept struct {
 // runC12Stream executes one op sequence on a fresh ListenerManager and returns the observed trace.
 func runC12Stream(ops []c12Op) (trace []string, finalClosed []int, findings []MonitorFinding) {
 	mgr := service.NewListenerManager()
-	l0, _ := net.Listen("tcp", "127.0.0.1:0")
-	addr := l0.Addr().String()
-	l0.Close()
+	addr := fmt.Sprintf("127.0.0.1:%d", freeLowPorts(1))
 	g0 := runtime.NumGoroutine()
 	var handles []service.StreamListener
 	closedH := map[int]bool{}
@@ -287,9 +285,7 @@ func runC12Stream(ops []c12Op) (trace []string, finalClosed []int, findings []Mo
 func runC12Packet(r *Rng) (findings []MonitorFinding, stats map[string]int) {
 	stats = map[string]int{}
 	mgr := service.NewListenerManager()
-	l0, _ := net.ListenPacket("udp", "127.0.0.1:0")
-	addr := l0.LocalAddr().String()
-	l0.Close()
+	addr := fmt.Sprintf("127.0.0.1:%d", freeLowPorts(1))
 	n := r.Range(2, 4)
 	var hs []net.PacketConn
 	for i := 0; i < n; i++ {
